@@ -52,8 +52,8 @@ def sample_id(idx, ti, j):
 _MI = {}
 
 
-def make_mi(geom, jnp, L, ts, j):
-    ck = (L, tuple(ts), j)
+def make_mi(geom, jnp, L, ts, j, side=N):
+    ck = (L, tuple(ts), j, side)
     if ck not in _MI:
         if len(_MI) > 400:
             _MI.clear()
@@ -61,7 +61,7 @@ def make_mi(geom, jnp, L, ts, j):
         for ti in ts:
             k, par = TYPES[ti]
             ids = np.asarray([sample_id(i, ti, j) for i in range(L)], dtype=np.float32)
-            shape = (L, CHANNELS[ti]) + (N,) * D + (D,) * k
+            shape = (L, CHANNELS[ti]) + (side,) * D + (D,) * k
             data[(k, par)] = jnp.asarray(np.broadcast_to(ids.reshape((L,) + (1,) * (len(shape) - 1)), shape).copy())
         _MI[ck] = geom.MultiImage(data, D, True)
     return _MI[ck]
@@ -71,11 +71,11 @@ def model_mi(L, ts, j):
     return [[key_str(ti), [sample_id(i, ti, j) for i in range(L)]] for ti in ts]
 
 
-def decode_block(a, ti, lead):
+def decode_block(a, ti, lead, side=N):
     """block with `lead` leading axes (2: device x sample, 1: sample) -> nested ids"""
     a = np.asarray(a)
     k = TYPES[ti][0]
-    want_tail = (CHANNELS[ti],) + (N,) * D + (D,) * k
+    want_tail = (CHANNELS[ti],) + (side,) * D + (D,) * k
     if a.ndim != lead + len(want_tail) or tuple(a.shape[lead:]) != want_tail:
         return ["bad-shape", list(a.shape)]
     flat = a.reshape(a.shape[:lead] + (-1,))
@@ -90,12 +90,12 @@ def decode_block(a, ti, lead):
     return [[one(vals[d, r], const[d, r]) for r in range(a.shape[1])] for d in range(a.shape[0])]
 
 
-def decode_mi(mi, ts, lead):
+def decode_mi(mi, ts, lead, side=N):
     out = {}
     by_key = {TYPES[ti]: ti for ti in ts}
     for kp, blk in mi.items():
         ti = by_key.get(tuple(kp))
-        out[f"{kp[0]},{kp[1]}"] = ["unknown-key"] if ti is None else decode_block(blk, ti, lead)
+        out[f"{kp[0]},{kp[1]}"] = ["unknown-key"] if ti is None else decode_block(blk, ti, lead, side)
     return out
 
 
@@ -112,9 +112,10 @@ def flat_idx(rows, ti, j):
     return out
 
 
-def run_case(ctx: Ctx, ml, geom, jnp, random, L, B, seed, tsets, nd, single):
+def run_case(ctx: Ctx, ml, geom, jnp, random, L, B, seed, tsets, nd, single, sides=None):
     nmis = len(tsets)
-    mis = [make_mi(geom, jnp, L, ts, j) for j, ts in enumerate(tsets)]
+    sides = sides or [N] * nmis
+    mis = [make_mi(geom, jnp, L, ts, j, sides[j]) for j, ts in enumerate(tsets)]
     key = None if seed is None else random.PRNGKey(seed)
     devices = None if nd is None else [None] * nd
     ndv = 1 if nd is None else nd
@@ -124,10 +125,11 @@ def run_case(ctx: Ctx, ml, geom, jnp, random, L, B, seed, tsets, nd, single):
         "devices": "jax.devices()" if nd is None else f"{nd} synthetic",
         "passed_as": "single MultiImage" if single else "sequence",
         "encoding": "sample = idx + 100*type + 10000*multi_image",
+        "spatial_sides": list(sides),
     }
     try:
         out = ml.get_batches(mis[0] if single else tuple(mis), B, key, devices)
-        impl = [[decode_mi(b, tsets[j], 2) for b in row] for j, row in enumerate(out)]
+        impl = [[decode_mi(b, tsets[j], 2, sides[j]) for b in row] for j, row in enumerate(out)]
     except Exception as e:  # noqa: BLE001
         impl = "rejected:" + type(e).__name__
     nb = L // B
@@ -523,6 +525,13 @@ def run(ctx: Ctx):
                     tsets = [TYPESETS[int(t)] for t in rng.integers(0, len(TYPESETS), size=nmis)]
                     seed = None if rng.integers(4) == 0 else int(rng.integers(0, 2**31 - 1))
                     run_case(ctx, ml, geom, jnp, random, L, B, seed, tsets, nd, False)
+    # co-batched multi-images of very different size (one above 2**20 elements, e.g. a high-resolution input next
+    # to a small target): size-dependent gathering strategies must still slice both with the same indices
+    for (L, B) in ((16, 5), (16, 4)) if quick else ((16, 5), (16, 4), (18, 7), (20, 3)):
+        for seed in [None] + [int(s) for s in rng.integers(0, 2**31 - 1, size=2)]:
+            run_case(ctx, ml, geom, jnp, random, L, B, seed, [[0], [1, 2]], None, False, sides=[192, N])
+            run_case(ctx, ml, geom, jnp, random, L, B, seed, [[1], [0]], None, False, sides=[N, 192])
+    _MI.clear()
     for L in range(1, 13):
         for nd in (None, 1, 2, 3):
             run_reshape(ctx, geom, jnp, jax, L, TYPESETS[int(rng.integers(len(TYPESETS)))], nd)
